@@ -7,6 +7,7 @@ import (
 	"go/types"
 	"sort"
 	"strconv"
+	"strings"
 
 	"zverif/checker/an"
 )
@@ -208,6 +209,98 @@ func c27(p *an.Prog, r *an.R, tier string) {
 		r.Check(ok && ci.ObjectOf(id) == cp, "C27.R4", "query.convertCapture/error-return/"+strconv.Itoa(nErrRet)+"/returns-the-original", rs.Pos(), "on a parse error the original expression is returned", "on a parse error convertCapture returns `"+types.ExprString(rs.Results[0])+"` instead of the original expression")
 	}
 	r.Floor("C27.R4.error-returns", 2, nErrRet)
+	c27LiteralShortcut(p, r)
+}
+
+// c27LiteralShortcut: turning a regexp that is a single literal into a
+// Substring query drops everything but the runes. A fold-case literal
+// ((?i)foo) stores folded runes and must match case-insensitively, so the
+// shortcut has to look at the FoldCase flag.
+func c27LiteralShortcut(p *an.Prog, r *an.R) {
+	r.Rule("C27.R5", "every query.Substring literal whose Pattern is string(R.Rune) of a *syntax.Regexp R is built where R.Flags was consulted (guard on FoldCase, or CaseSensitive derived from it)")
+	exceptions := map[string]string{
+		"index.(*indexData).simplify": "the pattern is always `(?i)(ext|ext...)$`: it ends in an anchor and never parses to a bare literal (the shortcut is a dead copy of query.RegexpQuery)",
+	}
+	n := 0
+	p.AllDecls(func(fn *types.Func, d *an.DeclInfo) {
+		if d.Decl.Body == nil || strings.HasSuffix(p.Fset.Position(d.Decl.Pos()).Filename, "_test.go") {
+			return
+		}
+		info := d.Pkg.TypesInfo
+		var stack []ast.Node
+		ast.Inspect(d.Decl.Body, func(nd ast.Node) bool {
+			if nd == nil {
+				stack = stack[:len(stack)-1]
+				return true
+			}
+			stack = append(stack, nd)
+			cl, ok := nd.(*ast.CompositeLit)
+			if !ok || !strings.HasSuffix(an.TypeName(info.TypeOf(cl)), "query.Substring") {
+				return true
+			}
+			pat := litField(cl, "Pattern")
+			if dd := defOf(info, d.Decl.Body, pat); dd != nil {
+				pat = dd
+			}
+			// string(R.Rune)
+			conv, ok := ast.Unparen(pat).(*ast.CallExpr)
+			if pat == nil || !ok || len(conv.Args) != 1 {
+				return true
+			}
+			se, ok := ast.Unparen(conv.Args[0]).(*ast.SelectorExpr)
+			if !ok || se.Sel.Name != "Rune" {
+				return true
+			}
+			rid, ok := ast.Unparen(se.X).(*ast.Ident)
+			if !ok || !strings.HasSuffix(an.TypeName(info.TypeOf(rid)), "syntax.Regexp") {
+				return true
+			}
+			robj := info.ObjectOf(rid)
+			n++
+			fname := an.FuncName(fn)
+			key := fname + "/literal-shortcut/fold-flag-consulted"
+			if why, ok := exceptions[fname]; ok {
+				r.OK("C27.R5", key, cl.Pos(), "exception: "+why)
+				r.Except(fname, why)
+				return true
+			}
+			r.Fn(fname)
+			usesFlags := func(e ast.Node) bool {
+				hit := false
+				ast.Inspect(e, func(m ast.Node) bool {
+					if s2, ok := m.(*ast.SelectorExpr); ok && s2.Sel.Name == "Flags" && isIdentOf(info, s2.X, robj) {
+						hit = true
+					}
+					return true
+				})
+				return hit
+			}
+			consulted := false
+			// (a) an enclosing condition mentions R.Flags
+			for i := len(stack) - 2; i >= 0; i-- {
+				if is, ok := stack[i].(*ast.IfStmt); ok && usesFlags(is.Cond) {
+					consulted = true
+				}
+			}
+			// (b) the literal's CaseSensitive field derives from R.Flags (directly or through one local)
+			if cs := litField(cl, "CaseSensitive"); cs != nil {
+				if usesFlags(cs) {
+					consulted = true
+				}
+				ast.Inspect(cs, func(m ast.Node) bool {
+					if id, ok := m.(*ast.Ident); ok {
+						if dd := defOf(info, d.Decl.Body, id); dd != nil && usesFlags(dd) {
+							consulted = true
+						}
+					}
+					return true
+				})
+			}
+			r.Check(consulted, "C27.R5", key, cl.Pos(), "the fold-case flag of the literal is taken into account", "a regexp that is a single literal is turned into a plain substring query without looking at its FoldCase flag: (?i)foo becomes the case-sensitive substring FOO (the folded runes) and no longer matches foo")
+			return true
+		})
+	})
+	r.Floor("C27.R5.literal-shortcuts", 2, n)
 }
 
 // c27FromSub: e is re.Sub[k], or an identifier bound to a range over re.Sub, or
